@@ -7,7 +7,8 @@ From QT Require Import Gen.C09Gen C09.Stateful.
 Open Scope string_scope.
 Open Scope Z_scope.
 
-Definition flags_of (on : list string) : flags := fun f => str_mem f on.
+(* on = the atomic facts that hold; guard names defined from them (history.is_enabled()) are expanded *)
+Definition flags_of (on : list string) : flags := flags_from gen_derived (fun f => str_mem f on).
 
 Definition model_agrees (on : list string) (c : case) : bool :=
   let '(cls, tmpl, m, l, json, o) := c in
